@@ -36,6 +36,13 @@ impl OverlapChecker
         size: usize)
         -> Result<(), ()>
     {
+        // An item without any bits cannot overlap anything, and
+        // must not hide its neighbours from the items that follow
+        if size == 0
+        {
+            return Ok(());
+        }
+
         let (index, maybe_overlapping_entry) =
             self.check_overlap(position, size);
         
